@@ -107,6 +107,9 @@ func (c10) Meta() core.Meta {
 }
 
 func c10GenLen(r *core.Rand) int {
+	if r.Chance(1, 150) { // well beyond a kilobyte: many rounds of the widest kernel, 16-bit and page boundaries
+		return r.PickInt(4095, 4096, 4097, 5000, 65535, 65536, 65537, 70001)
+	}
 	if r.Chance(1, 12) {
 		return r.Len(1100)
 	}
@@ -154,6 +157,9 @@ func (c10) Generate(idx int, r *core.Rand, tier string) core.Script {
 		s.AADs = append(s.AADs, c10Buf{Len: w.PickInt(0, 0, 1, 13, 16, 17, 32, 100, 129), Seed: w.Uint64()})
 	}
 	nops := w.Range(1, 14)
+	if w.Chance(1, 300) { // a long-lived pool
+		nops = w.Range(60, 250)
+	}
 	var seals []int
 	for i := 0; i < nops; i++ {
 		op := c10Op{A: w.Intn(len(s.AEADs)), M: w.Intn(len(s.Msgs)), D: w.Intn(len(s.AADs))}
